@@ -69,7 +69,18 @@ pub fn run(rep: &mut Rep) {
             g.top_mask = Some(u64::MAX);
         }
         g.small = i % 2 == 0;
-        let v = gen_message(s, &mut g);
+        let mut v = gen_message(s, &mut g);
+        if i % 11 == 3 {
+            // sizes around the feature-dependent large-blob fragment length (3008) and beyond
+            let big = *rng.pick(&[3007usize, 3008, 3009, 3072, 4000, 7000]);
+            let target = match *cmd {
+                0x01 | 0x0a | 0x41 => "pinUvAuthParam",
+                0x02 => "clientDataHash",
+                0x06 => "newPinEnc",
+                _ => "set",
+            };
+            schema::set_by_name(s, &mut v, target, crate::cbor::V::B(rng.bytes(big)));
+        }
         let mut bytes = vec![*cmd];
         bytes.extend_from_slice(&encode(&v));
         // a share of the corpus is rejected input: the status must agree across builds too
